@@ -144,6 +144,29 @@ func DeBlobProgramCode(data []byte) (_ Program, _ ExitReason) {
 }
 
 // skip computes the distance to the next opcode  A.3
+// codeZeroPadding is the number of zero octets the engines keep after the
+// code. The code is implicitly followed by zeroes (GP A.3): an instruction
+// starting at the last octet still has all 1+24 octets of its longest
+// possible encoding to decode from, and running past the end executes trap.
+const codeZeroPadding = 32
+
+func zeroExtend(code ProgramCode) ProgramCode {
+	extended := make(ProgramCode, len(code)+codeZeroPadding)
+	copy(extended, code)
+	return extended
+}
+
+// executable returns a copy of the program whose instruction data is
+// zero-extended for execution; the bitmask keeps the true code length.
+func (p *Program) executable() *Program {
+	if p == nil {
+		return nil
+	}
+	q := *p
+	q.InstructionData = zeroExtend(p.InstructionData)
+	return &q
+}
+
 func skip(pc int, bitmask Bitmask) uint32 {
 	j := 1
 	for ; pc+j < len(bitmask); j++ {
